@@ -24,6 +24,9 @@ PANIC_LEAVES = [
     (r"^std::string::String::(insert|insert_str|remove|drain|split_off|truncate|replace_range)$", "str-index"),
     (r"^core::slice::<impl \[T\]>::(split_at|split_at_mut|copy_from_slice|swap)$", "index"),
     (r"^std::char::methods::<impl char>::from_u32_unchecked$", "unsafe"),
+    # allocation sized by a value: `capacity overflow` panic / abort when the size is controlled by the input
+    (r"^std::(string::String|vec::Vec::<T>|vec::Vec::<T, A>|collections::VecDeque::<T>)::(with_capacity|reserve|reserve_exact)$", "alloc"),
+    (r"^std::vec::Vec::<T, A>::(resize|resize_with)$|^std::vec::from_elem$|^std::str::<impl str>::repeat$|^alloc::str::<impl str>::repeat$", "alloc"),
 ]
 PANIC_LEAVES = [(re.compile(r), k) for r, k in PANIC_LEAVES]
 
@@ -366,6 +369,14 @@ def auto_discharge(facts, f, defs, s, ctx):
                         return "A2: constant non-zero divisor"
         if a == "Overflow(Sub)" and ops and is_const(ops[1], "1") and guarded_positive(facts, f, s["bb"], ops[0]):
             return "A3: `x - 1` dominated by the test `x > 0`"
+        return None
+    if s["kind"] == "alloc":
+        a = t.get("args", [])
+        size = a[-1] if a else None
+        if size is not None and is_const(size):
+            return "A8: allocation of a constant size"
+        if size is not None and producer(facts, f, defs, size) in ("len", "count", "capacity", "size_hint", "length"):
+            return "A8: allocation sized by the length of existing data"
         return None
     if s["kind"] == "vec-index" and s["what"] == "insert" and len(t.get("args", [])) >= 2 and is_const(t["args"][1], "0"):
         return "A7: Vec::insert at the constant index 0 (always <= len)"
